@@ -525,6 +525,10 @@ pub fn build(v: &VolCfg, seed: u64) -> Result<Built, String> {
             _ => img.put_u32(base + u64::from(c) * 4, val),
         }
     };
+    let pad_marked = r.chance(1, 2);
+    if !pad_marked {
+        features.push("FAT padding entries past the last cluster left zero");
+    }
     let hi_bits = v.fat == 32 && r.chance(1, 2);
     if hi_bits {
         features.push("FAT32 entries with non-zero reserved high bits");
@@ -555,10 +559,12 @@ pub fn build(v: &VolCfg, seed: u64) -> Result<Built, String> {
             let hb = if hi_bits { (r2.below(16) as u32) << 28 } else { 0 };
             write_entry(&mut img, copy, *c, *val | hb);
         }
-        // entries beyond the last cluster up to the FAT capacity are not free
-        let cap = (fat_bytes * 8 / bits).min(n + 2 + 4096);
-        for c in (n + 2)..cap {
-            write_entry(&mut img, copy, c as u32, e1);
+        // entries beyond the last cluster up to the FAT capacity: some formatters mark them, others leave zeros
+        if pad_marked {
+            let cap = (fat_bytes * 8 / bits).min(n + 2 + 4096);
+            for c in (n + 2)..cap {
+                write_entry(&mut img, copy, c as u32, e1);
+            }
         }
     }
     img.write_at(0, &bs);
